@@ -344,6 +344,7 @@ func c20resp(c *run.Ctx) {
 	c.Sample(map[string]interface{}{"errors": len(names), "payloads": c20Payloads[:6]})
 	c20Custom(c)
 	c20FaultLeak(c)
+	c20TimeClaims(c)
 }
 
 // c20FaultLeak: the text of a failing storage call is internal detail. Every token-issuing / revoking flow of the C18 catalogue
@@ -447,6 +448,73 @@ const fetchCanary = "INTERNAL-FETCH-CANARY-77d1 dial tcp 10.1.2.3:3128: proxy re
 
 func (c20FailFetcher) Resolve(ctx context.Context, location string, ignoreCache bool) (*jose.JSONWebKeySet, error) {
 	return nil, errors.New(fetchCanary)
+}
+
+// c20TimeClaims: JWTs whose time claims are out of range (an expired / not yet valid / postdated OpenID Connect request object
+// at the authorization and the push endpoint, such a client assertion at the token endpoint) are refused with an error response
+// that names an error code of the protocol - not fosite's catch-all for an error it does not recognise - and a matching status.
+func c20TimeClaims(c *run.Ctx) {
+	if !c.Mine(11) && c.NShards > 11 {
+		return
+	}
+	keys := world.GetKeys()
+	w := world.New(world.Opts{})
+	jwks := &jose.JSONWebKeySet{Keys: []jose.JSONWebKey{{Key: &keys.ClientRSA[0].PublicKey, KeyID: "k0", Algorithm: "RS256", Use: "sig"}}}
+	w.AddClient(world.ClientSpec{ID: "ro20", Kind: "oidc", Secret: "s-ro20", AuthMethod: "client_secret_basic", JWKS: jwks, ReqObjAlg: "RS256", RequestURIs: []string{"https://client.example/ro20.jwt"},
+		RedirectURIs: []string{"https://ro20.example/cb"}, GrantTypes: world.AllGrants, ResponseTypes: world.AllResponseTypes, Scopes: []string{"openid", "fosite"}})
+	w.AddClient(world.ClientSpec{ID: "pk20", Kind: "oidc", AuthMethod: "private_key_jwt", AuthSigAlg: "RS256", JWKS: jwks, RedirectURIs: []string{"https://pk20.example/cb"},
+		GrantTypes: world.AllGrants, ResponseTypes: world.AllResponseTypes, Scopes: []string{"openid", "fosite"}})
+	now := time.Now()
+	for _, tc := range []struct {
+		name string
+		set  map[string]interface{}
+	}{
+		{"expired", map[string]interface{}{"exp": now.Add(-time.Hour).Unix()}},
+		{"not-yet-valid", map[string]interface{}{"exp": now.Add(2 * time.Hour).Unix(), "nbf": now.Add(time.Hour).Unix()}},
+		{"issued-in-the-future", map[string]interface{}{"exp": now.Add(2 * time.Hour).Unix(), "iat": now.Add(time.Hour).Unix()}},
+	} {
+		judge := func(where string, status int, errCode interface{}, detail string) {
+			c.Case(fmt.Sprintf("time-claims %s at %s -> status=%d error=%v", tc.name, where, status, errCode))
+			c.Count("c20_time_claim_refusals", 1)
+			if errCode == "error" || errCode == nil || errCode == "" {
+				c.Violate(run.Violation{Kind: "error-code-not-rfc", Key: fmt.Sprintf("error-code-not-rfc %s %s", where, tc.name),
+					Detail: fmt.Sprintf("the refusal names no error code of the protocol (error=%v, HTTP %d): %s", errCode, status, detail)})
+			}
+		}
+		claims := map[string]interface{}{"iss": "ro20", "aud": world.Issuer, "client_id": "ro20", "response_type": "code", "scope": "openid fosite", "state": "object-state-0123456789",
+			"redirect_uri": "https://ro20.example/cb", "nonce": "nonce-0123456789"}
+		for k, v := range tc.set {
+			claims[k] = v
+		}
+		obj := world.SignJWT(keys.ClientRSA[0], "RS256", map[string]interface{}{"kid": "k0"}, claims)
+		q := url.Values{"client_id": {"ro20"}, "response_type": {"code"}, "scope": {"openid"}, "state": {"query-state-0123456789"}, "redirect_uri": {"https://ro20.example/cb"}, "nonce": {"nonce-0123456789"}, "request": {obj}}
+		if az := w.Authorize(q, world.Consent{}); az.Err != nil {
+			code := interface{}(az.Params.Get("error"))
+			if az.Kind == "json" {
+				code = az.JSON["error"]
+			}
+			judge("authorize(request object)", az.Status, code, az.Kind+" "+az.Location+" "+az.Body)
+		} else {
+			c.Unspecified("request-object-" + tc.name + "-accepted")
+		}
+		pq := url.Values{"response_type": {"code"}, "scope": {"openid"}, "state": {"query-state-0123456789"}, "redirect_uri": {"https://ro20.example/cb"}, "nonce": {"nonce-0123456789"}, "request": {obj}}
+		if p := w.PAR(pq, world.Basic("ro20", "s-ro20")); p.Err != nil {
+			judge("par(request object)", p.Status, p.JSON["error"], p.Body)
+		} else {
+			c.Unspecified("pushed-request-object-" + tc.name + "-accepted")
+		}
+		acl := map[string]interface{}{"iss": "pk20", "sub": "pk20", "aud": world.TokenURL, "jti": nextJTI("c20time")}
+		for k, v := range tc.set {
+			acl[k] = v
+		}
+		as := world.SignJWT(keys.ClientRSA[0], "RS256", map[string]interface{}{"kid": "k0"}, acl)
+		if t := w.Token(url.Values{"grant_type": {"client_credentials"}, "scope": {"fosite"}}, world.Auth{Mode: "none", Assertion: as}); t.Err != nil {
+			judge("token(client assertion)", t.Status, t.JSON["error"], t.Body)
+		} else {
+			c.Unspecified("client-assertion-" + tc.name + "-accepted")
+		}
+	}
+	c.Sample(map[string]interface{}{"time_claims": "expired / nbf in the future / iat in the future x {authorize request object, pushed request object, client assertion}"})
 }
 
 // c20Custom: the cache directives and the debug-confinement rule also hold when the integrator plugs in a custom response
@@ -646,6 +714,18 @@ func c20taint(c *run.Ctx) {
 		}
 		var calls []world.Call
 		w.Store.Tap = func(cl world.Call) { calls = append(calls, cl) }
+		// every response of this workload: an error body names an error code, never fosite's catch-all for an error it does
+		// not recognise
+		var unrecognisable []string
+		world.RespTap = func(status int, h http.Header, body string) {
+			c.Count("c20_taint_responses_scanned", 1)
+			if status >= 400 && strings.HasPrefix(h.Get("Content-Type"), "application/json") {
+				var m map[string]interface{}
+				if json.Unmarshal([]byte(body), &m) == nil && m["error"] == "error" {
+					unrecognisable = append(unrecognisable, fmt.Sprintf("status %d body %s", status, body))
+				}
+			}
+		}
 		s := sim.New(w, c, "none")
 		// PKCE S256 flows (verifier is a secret), body-transported credentials, assertions, PAR with credentials in the body
 		verifier := "verifier-" + fmt.Sprint(gi) + "-abcdefghijklmnopqrstuvwxyz0123456789ABCDEF"
@@ -712,6 +792,10 @@ func c20taint(c *run.Ctx) {
 			w.IntrospectHTTP(url.Values{"token": {t.Value}}, world.Basic("conf-a", "secret-of-a"), "")
 		}
 		w.Store.Tap = nil
+		world.RespTap = nil
+		for _, u := range unrecognisable {
+			c.Violate(run.Violation{Kind: "error-code-not-rfc", Key: "error-code-not-rfc taint workload", Detail: "an error response names no error code of the protocol but the catch-all \"error\": " + u, History: s.Hist})
+		}
 		for _, t := range s.Toks {
 			secrets[t.Value] = t.Kind + "_token"
 		}
